@@ -79,6 +79,8 @@ func findCloseLoops(w *World, fi *FuncInfo) []*closeLoop {
 		if il.CollObj == nil {
 			if fv := fieldOf(info, il.Coll); fv != nil {
 				l.field, l.origin = fv, "direct"
+			} else if fv, how := exprOrigin(w, fi, il.Coll); fv != nil {
+				l.field, l.origin = fv, how // for _, c := range s.drainChildren()
 			}
 		}
 		if _, isFor := st.(*ast.ForStmt); isFor {
@@ -455,6 +457,27 @@ func closeEvents(w *World, loopsOf func(body *ast.BlockStmt) []*closeLoop) *Even
 				out = append(out, "closefield:"+ownerField(w, fv), "P:closed:"+ownerField(w, fv))
 			}
 			out = append(out, "closecall:"+k+":"+exprStr(r))
+		}
+		// x.owner.removeChild(recv): a private helper deletes its parameter from a table, and the
+		// argument in that position is this function's receiver
+		if t := w.Decls[cal]; t != nil && cal != nil && !cal.Exported() && t.Decl.Body != nil {
+			tinfo := t.Pkg.TypesInfo
+			k := 0
+			for _, fl := range t.Decl.Type.Params.List {
+				for _, nm := range fl.Names {
+					po := tinfo.Defs[nm]
+					if k < len(call.Args) && w.isReceiver(objOf(info, call.Args[k])) {
+						for _, hc := range callsIn(t.Decl.Body, false) {
+							if id, ok := unparen(hc.Fun).(*ast.Ident); ok && id.Name == "delete" && len(hc.Args) == 2 && objOf(tinfo, hc.Args[1]) == po {
+								if fv := fieldOf(tinfo, hc.Args[0]); fv != nil {
+									out = append(out, "P:del:"+ownerField(w, fv))
+								}
+							}
+						}
+					}
+					k++
+				}
+			}
 		}
 		if isFunc(cal, "sync", "Map", "Delete") {
 			if r, _, ok := methodCall(call); ok {
